@@ -204,7 +204,59 @@ def sensitivity_into_evidence(prop, args):
         'missed': [r['id'] for r in results if r['status'] in ('MISSED', 'analysis-error', 'error')],
         'results': [{'id': r['id'], 'rule': r['rule'], 'status': r['status'], 'fired': r['fired'].get(prop, {}).get('rules')} for r in results],
     }
+    # negative controls: behaviour-preserving rewrites of the whole package
+    # (ast.unparse round trip; all locals renamed; docstrings stripped) must
+    # not produce a NEW violation (exit 2 = an anchored name vanished is fine)
+    try:
+        ev['coverage']['negative_controls'] = negative_controls(prop, args.root)
+    except Exception as e:  # pragma: no cover
+        ev['coverage']['negative_controls'] = {'error': '%s: %s' % (type(e).__name__, e)}
     with open(path, 'w') as f:
         json.dump(ev, f, indent=1, default=str)
     print('%s thorough: mutation sensitivity %d/%d operators caught' % (
         prop, ev['coverage']['mutation_sensitivity']['caught'], len(results) - ev['coverage']['mutation_sensitivity']['skipped']))
+
+
+def negative_controls(prop, root):
+    import importlib.util
+
+    spec = importlib.util.spec_from_file_location('refactor_fuzz', os.path.join(VERIF, 'tools', 'refactor_fuzz.py'))
+    rf = importlib.util.module_from_spec(spec)
+    spec.loader.exec_module(rf)
+    from ..cli import run_property
+    from ..model import Project, AnalysisError
+
+    base = baseline_keys(root, [prop]).get(prop, set())
+    base_fn = {(r, k.split(' :: ')[0]) for (r, k) in base}
+    out = {}
+    for variant in ('unparse', 'rename', 'docstrip'):
+        tmp = tempfile.mkdtemp(prefix='sa_neg_')
+        try:
+            for dp, dn, fn in os.walk(os.path.join(root, 'falcon')):
+                dn[:] = [d for d in dn if d != '__pycache__']
+                for f in fn:
+                    if not f.endswith('.py'):
+                        continue
+                    src = os.path.join(dp, f)
+                    dst = os.path.join(tmp, os.path.relpath(src, root))
+                    os.makedirs(os.path.dirname(dst), exist_ok=True)
+                    text = open(src, encoding='utf-8').read()
+                    try:
+                        text = rf.transform(text, variant)
+                    except Exception:
+                        pass
+                    open(dst, 'w', encoding='utf-8').write(text)
+            evdir = os.path.join(tmp, 'ev')
+            buf = io.StringIO()
+            try:
+                with contextlib.redirect_stdout(buf):
+                    rc = run_property(prop, 'quick', tmp, evdir, Project(tmp))
+            except AnalysisError:
+                rc = 2
+            keys = _violation_keys(evdir, prop)
+            # same (rule, function) as a finding already present = same finding under renamed locals
+            new = sorted('%s %s' % (r, k) for (r, k) in keys if (r, k) not in base and (r, k.split(' :: ')[0]) not in base_fn)
+            out[variant] = {'exit': rc, 'new_violations': new, 'verdict': 'FALSE-ALARM' if new else ('silent' if rc in (0, 1) else 'anchor-vanished (exit 2)')}
+        finally:
+            shutil.rmtree(tmp, ignore_errors=True)
+    return out
